@@ -18,6 +18,7 @@ import (
 	"github.com/reactivego/ivg/encode"
 	"github.com/reactivego/ivg/generate"
 	"github.com/reactivego/ivg/mdicons"
+	"github.com/reactivego/ivg/raster"
 	"github.com/reactivego/ivg/raster/vec"
 	"github.com/reactivego/ivg/render"
 	"golang.org/x/image/math/f32"
@@ -27,6 +28,7 @@ import (
 	"verif/internal/gen"
 	"verif/internal/harness"
 	"verif/internal/ops"
+	"verif/internal/rast"
 )
 
 func TestMain(m *testing.M) { harness.Main(m, "C18") }
@@ -88,6 +90,9 @@ var sharedValidPalette = func() [64]color.RGBA {
 	}
 	return p
 }()
+
+// sharedOptions: decode options built once, from colours of several models.
+var sharedOptions = []decode.DecodeOption{decode.WithColorAt(2, color.NRGBA{0x10, 0xff, 0x20, 0x90}), decode.WithColorAt(5, color.Gray16{0x8000}), decode.WithColorAt(63, color.RGBA{1, 2, 3, 0xff})}
 
 // sharedStops: a caller-supplied stop list that several goroutines hand to the gradient helpers.
 var sharedStops, sharedStopsCopy = func() ([]generate.GradientStop, []generate.GradientStop) {
@@ -172,7 +177,11 @@ func runJob(w *worker, j Job, inputs [][]byte) uint64 {
 		// list (colours of several models) that every goroutine shares
 		n := 17 + j.Param%42
 		img := image.NewRGBA(image.Rect(0, 0, 24, 20))
-		z := vec.NewRasterizer(img)
+		var z raster.Rasterizer = vec.NewRasterizer(img)
+		rr := &rast.Recorder{}
+		if j.Param%3 == 0 {
+			z = rr // a rasteriser that reads the paint's configuration (stops, spread, transform) instead of its pixels
+		}
 		var r render.Renderer
 		r.SetRasterizer(z, img.Bounds())
 		var g generate.Generator
@@ -184,7 +193,13 @@ func runJob(w *worker, j Job, inputs [][]byte) uint64 {
 		g.AbsVLineTo(32)
 		g.AbsHLineTo(-32)
 		g.ClosePathEndPath()
-		return hash(img.Pix, []byte(fmt.Sprint(err)))
+		cfg := ""
+		for _, cl := range rr.Calls {
+			if cl.P != nil {
+				cfg += fmt.Sprint(cl.P.Offsets, cl.P.Colors, cl.P.Transform)
+			}
+		}
+		return hash(img.Pix, []byte(fmt.Sprint(err)), []byte(cfg))
 	case "generate":
 		var e encode.Encoder
 		var g generate.Generator
@@ -247,7 +262,11 @@ func runJob(w *worker, j Job, inputs [][]byte) uint64 {
 		return hash(acc)
 	case "options":
 		rec := &ops.Recorder{}
-		err := decode.Decode(rec, in, decode.WithPalette(sharedPalette), decode.WithColorAt(j.Param%64, color.NRGBA{0xff, 0, 0, 0x80}))
+		opts := []decode.DecodeOption{decode.WithPalette(sharedPalette), decode.WithColorAt(j.Param%64, color.NRGBA{0xff, 0, 0, 0x80})}
+		if j.Param%2 == 0 {
+			opts = sharedOptions // option values built once (a theme) and used by every goroutine
+		}
+		err := decode.Decode(rec, in, opts...)
 		p := [64]color.RGBA{}
 		if len(rec.Ops) > 0 {
 			p = rec.Ops[0].Palette()
@@ -381,7 +400,11 @@ var subConc = harness.Define("concurrent", "N in {2,4,8,16,32} goroutines x GOMA
 
 func TestConcurrent(t *testing.T) {
 	all := corpus.All()
-	harness.Rapid(t, harness.N(20, 4*150), func(t *rapid.T) {
+	cases := harness.N(20, 4*150)
+	if !harness.Thorough() {
+		cases = 20/harness.Shards() + 1 // the quick tier spreads its cases over several cold processes
+	}
+	harness.Rapid(t, cases, func(t *rapid.T) {
 		var c Case
 		c.Procs = rapid.SampledFrom([]int{2, 4, 16}).Draw(t, "procs")
 		n := rapid.SampledFrom([]int{2, 4, 8, 16, 32}).Draw(t, "goroutines")
@@ -398,6 +421,21 @@ func TestConcurrent(t *testing.T) {
 		jobs := harness.N(24, 60)
 		for g := 0; g < n; g++ {
 			var list []Job
+			// every goroutine starts with one job of each kind, in the same order right after the
+			// start signal: whatever is built on first use is first used from several goroutines
+			// at once (every second goroutine starts the round at another kind)
+			seen := map[string]bool{}
+			for i := range jobKinds {
+				k := jobKinds[(i+(g%2)*(g/2))%len(jobKinds)]
+				if seen[k] {
+					continue
+				}
+				seen[k] = true
+				list = append(list, Job{Kind: k, Input: (i + g) % (nf + ns), Param: 6 * (i % 7)})
+				if k == "render" && list[len(list)-1].Input >= nf {
+					list[len(list)-1].Input %= nf
+				}
+			}
 			for i := 0; i < jobs; i++ {
 				k := rapid.SampledFrom(jobKinds).Draw(t, "kind")
 				j := Job{Kind: k, Input: rapid.IntRange(0, nf+ns-1).Draw(t, "input"), Param: rapid.IntRange(0, 255).Draw(t, "param")}
